@@ -298,6 +298,13 @@ def run_unary(case):
             c.cmp(lab, name, got, ref, tol)
             if not np.array_equal(A, A0):
                 c.bad(lab + "/inputs", "inputs modified", "modified", "unchanged")
+            # a result handed out earlier keeps its values when the routine is called again for other tensors of the same shape
+            if isinstance(got, np.ndarray) and got.ndim > 0:
+                keep = got.copy()
+                fcall(np.ascontiguousarray(A[..., ::-1] * 1.3 + 0.1) if A.ndim > order else A * 1.3 + 0.1)
+                c.trans += 1
+                if not np.array_equal(got, keep, equal_nan=True):
+                    c.bad(lab + "/held-result", "a result returned earlier changed when the routine was called again (same shapes, other values)", float(np.nanmax(np.abs(got - keep))), 0)
             if outbuf and np.ndim(ref) > 0:
                 for hist in ("fresh", "garbage", "previous"):
                     buf = np.zeros_like(ref) if hist == "fresh" else (np.full_like(ref, -55.5) if hist == "garbage" else np.array(ref) * 2 - 1)
@@ -478,6 +485,22 @@ def run_other(case):
                 c.cmp(f"lattice/out={hist}/determinant", "inv with out= and determinant", r, ref_inv, tol)
                 if not np.array_equal(dd, ref_det):
                     c.bad(f"lattice/out={hist}/determinant/inputs", "supplied determinant modified", "modified", "unchanged")
+            # call histories with held results: inverse and determinant of a full_output call are kept while every other
+            # variant is called for other tensors of the same shape; then the kept determinant is handed back in
+            B = np.ascontiguousarray(A[..., ::-1] * 1.1)
+            later = {"inv": lambda: fm.inv(B), "cof": lambda: fm.cof(B), "inv-full_output": lambda: fm.inv(B, full_output=True), "det": lambda: fm.det(B),
+                     "inv-determinant": lambda: fm.inv(B, determinant=fm.det(B)), "inv-sym": lambda: fm.inv(B, sym=True)}
+            for l1, l2 in itertools.product(later, repeat=2):
+                r, dt = fm.inv(A, full_output=True)
+                later[l1]()
+                later[l2]()
+                c.trans += 3
+                c.cmp(f"held/{l1}>{l2}/inv", "inverse kept from an earlier full_output call, after later calls on other tensors", r, ref_inv, tol)
+                c.cmp(f"held/{l1}>{l2}/det", "determinant kept from an earlier full_output call, after later calls on other tensors", dt, ref_det, tol)
+                dd = np.array(dt, copy=True)
+                c.cmp(f"held/{l1}>{l2}/reuse-determinant", "inv with the kept determinant supplied", fm.inv(A, determinant=dt), ref_inv, tol)
+                if not np.array_equal(dt, dd):
+                    c.bad(f"held/{l1}>{l2}/reuse-determinant/inputs", "supplied determinant modified", "modified", "unchanged")
             S = lattice(d, tier, sym=True)
             Si = np.moveaxis(np.linalg.inv(np.moveaxis(S, -1, 0)), 0, -1)
             c.cmp("symlattice/sym", "inv(sym=True) on symmetric lattice", fm.inv(S, sym=True), Si, tol)
